@@ -678,7 +678,13 @@ static J plan_c15(uint64_t seed, const std::string &tier) {
     }
     ops.push(op);
     // right after a faulted call: the same call again, fault-free (bounded recovery: one call)
-    if (op.has("faults") && g.chance(3, 4)) { J again = op; again.o.erase(std::remove_if(again.o.begin(), again.o.end(), [](const std::pair<std::string, J> &kv) { return kv.first == "faults"; }), again.o.end()); ops.push(again); }
+    if (op.has("faults") && g.chance(1, 3)) {
+      // ... or first a request that fails while being parsed, entered with whatever errno the faulted call left
+      Req bad = invalid_req(g, pool, false);
+      for (int tries = 0; tries < 20 && bad.cls != "malformed" && bad.cls != "mutated" && bad.cls != "truncated" && bad.cls != "bad-number"; tries++) bad = invalid_req(g, pool, false);
+      J nb = J::obj(); nb["k"] = hash_kind(g, true); place(g, nb, nobj, nslots); put_req(nb, bad); nb["errno_keep"] = 1; ops.push(nb); continue;
+    }
+    if (op.has("faults") && g.chance(3, 4)) { J again = op; again.o.erase(std::remove_if(again.o.begin(), again.o.end(), [](const std::pair<std::string, J> &kv) { return kv.first == "faults"; }), again.o.end()); again["errno_keep"] = 1; ops.push(again); }
   }
   t["ops"] = ops; p["tasks"].push(t);
   return p;
